@@ -287,7 +287,14 @@ impl<'a> V<'a> {
                 return self.object(o.items.iter().map(|a| (a.name.value.to_string(), ObjVal::C(&a.value))).collect(), ty, ctx);
             }
             (ConstantValue::List(_), _, _) => false,
-            (ConstantValue::Int(_), Kind::Scalar, "Int" | "Float" | "ID") => true,
+            // Int is a signed 32-bit integer (June 2018, 3.5.1); ID and Float accept any integer literal
+            (ConstantValue::Int(i), Kind::Scalar, "Int") => {
+                if i32::try_from(i.value).is_err() {
+                    self.p("int-range", format!("{ctx}: {} does not fit the 32-bit Int type", i.value));
+                }
+                true
+            }
+            (ConstantValue::Int(_), Kind::Scalar, "Float" | "ID") => true,
             (ConstantValue::Float(_), Kind::Scalar, "Float") => true,
             (ConstantValue::String(_), Kind::Scalar, "String" | "ID") => true,
             (ConstantValue::Boolean(_), Kind::Scalar, "Boolean") => true,
